@@ -300,7 +300,8 @@ def userEval (p : CProg) : Nat → Nat → Nat → Time → St → UserRes
       let s3 := match e with
         | some v => writeOut p s2 inst idx .main v "" t
         | none => s2
-      let tail := if cn.ins.isEmpty then "" else s!" a={inDesc s a t}"
+      let tail := if cn.ins.isEmpty then "" else if cn.ins.length ≥ 2 then s!" a={inDesc s a t} b={inDesc s b t}"
+                  else s!" a={inDesc s a t}"
       { st := s3.logf s!"E {lbl} {t} k={n.k} {before} {qStr (s3.node inst idx).ns t}{tail}" }
     | .sink => { st := s.logf s!"T {lbl} {t} {inValue s a}" }
     | .thrower id =>
